@@ -3,6 +3,7 @@ package sim
 import (
 	"encoding/hex"
 	"fmt"
+	"sort"
 	"strconv"
 	"strings"
 	"time"
@@ -90,6 +91,8 @@ type TableDef struct {
 	Cols []ColDef `json:"cols"`
 	PK   []string `json:"pk"`
 	Rows [][]Val  `json:"rows"`
+	// Uniq: a column with a secondary unique index (uk_<column>)
+	Uniq string `json:"uniq,omitempty"`
 }
 
 type ATStmt struct {
@@ -102,6 +105,15 @@ type ATStmt struct {
 type ATBranch struct {
 	Explicit bool     `json:"explicit"`
 	Stmts    []ATStmt `json:"stmts"`
+}
+
+func (t *TableDef) colIdx(name string) int {
+	for i := range t.Cols {
+		if t.Cols[i].Name == name {
+			return i
+		}
+	}
+	return -1
 }
 
 func (t *TableDef) col(name string) *ColDef {
@@ -143,7 +155,14 @@ func (t *TableDef) install(srv *simdb.Server, schema string) error {
 	if len(t.PK) == 0 || len(cols) == 0 {
 		return fmt.Errorf("table needs columns and a primary key")
 	}
-	srv.CreateTable(schema, t.Name, cols, t.PK, nil)
+	var idx []*simdb.Index
+	if t.Uniq != "" {
+		if t.col(t.Uniq) == nil {
+			return fmt.Errorf("unique column %s is not a column", t.Uniq)
+		}
+		idx = append(idx, &simdb.Index{Name: "uk_" + t.Uniq, Cols: []string{t.Uniq}, Unique: true})
+	}
+	srv.CreateTable(schema, t.Name, cols, t.PK, idx)
 	return t.load(srv, schema)
 }
 
@@ -172,6 +191,9 @@ type GenOpts struct {
 	ShuffleCols bool `json:"shuffle_cols"`
 	// MultiUpsert: multi-row INSERT ... ON DUPLICATE KEY UPDATE
 	MultiUpsert bool `json:"multi_upsert"`
+	// UniqueIndex: tables get a secondary unique index on one int / varchar
+	// column; inserts and upserts sometimes collide on it
+	UniqueIndex bool `json:"unique_index,omitempty"`
 	// DedicatedConn: the business of an episode runs on one *sql.Conn
 	DedicatedConn bool `json:"dedicated_conn,omitempty"`
 	// BigBlob: most blob values are 40-60 KB of random bytes
@@ -311,8 +333,17 @@ func genTable(g *simkit.Gen, name string, o GenOpts) TableDef {
 		ty := simkit.Pick(g, o.Types)
 		t.Cols = append(t.Cols, ColDef{Name: fmt.Sprintf("c%d_%s", i, strings.TrimSuffix(ty, "3")), Type: colType(ty), Nullable: g.Prob(0.4)})
 	}
+	if o.UniqueIndex {
+		for _, c := range t.Cols {
+			if !t.isPK(c.Name) && (c.Type == "int" || c.Type == "bigint" || strings.HasPrefix(c.Type, "varchar")) {
+				t.Uniq = c.Name
+				break
+			}
+		}
+	}
 	nr := g.Range(0, 6)
 	seen := map[string]bool{}
+	seenU := map[string]bool{}
 	for i := 0; i < nr; i++ {
 		row := make([]Val, len(t.Cols))
 		for j, c := range t.Cols {
@@ -325,6 +356,15 @@ func genTable(g *simkit.Gen, name string, o GenOpts) TableDef {
 		k := pkText(&t, row)
 		if seen[strings.ToLower(k)] {
 			continue
+		}
+		if t.Uniq != "" {
+			u := row[t.colIdx(t.Uniq)]
+			if u.K != "n" {
+				if seenU[strings.ToLower(u.V)] {
+					continue
+				}
+				seenU[strings.ToLower(u.V)] = true
+			}
 		}
 		seen[strings.ToLower(k)] = true
 		t.Rows = append(t.Rows, row)
@@ -568,6 +608,25 @@ func (s *stmtGen) gen() ATStmt {
 					pi++
 				} else {
 					row[j] = genValFor(s.g, c, s.o)
+					if t.Uniq == c.Name {
+						switch {
+						case c.Nullable && r == 0 && nrows > 1 && s.g.Prob(0.4):
+							row[j] = VN()
+						case s.g.Prob(0.4):
+							// the value another row holds (duplicate key through the index)
+							var ks []string
+							for k := range s.live[ti] {
+								ks = append(ks, k)
+							}
+							sort.Strings(ks)
+							for _, k := range ks {
+								if other := s.live[ti][k]; other[j].K != "n" {
+									row[j] = other[j]
+									break
+								}
+							}
+						}
+					}
 				}
 			}
 			for _, n := range names {
